@@ -16,9 +16,53 @@ type c15BrStream struct {
 	name      string
 	gotResp   bool
 	earlyData bool // response DATA was traced before the response HEADERS (stale byte count)
+	resp      c15BrParser
+}
+
+// c15BrParser follows the counters of the response-side dataTracer of a stream, only to know how
+// much the tracer under test will pre-allocate for an end-stream message (it allocates the DECLARED
+// length as soon as the prefix is complete): see c15MaxEndStreamAlloc.
+type c15BrParser struct {
+	isStream  bool
+	prefix    []byte
+	expecting uint32
+	actual    uint64
+}
+
+func (p *c15BrParser) feed(data []byte, worst *int64) {
+	if !p.isStream {
+		p.actual += uint64(len(data))
+		return
+	}
+	for len(data) > 0 {
+		if p.expecting == 0 {
+			need := 5 - len(p.prefix)
+			if len(data) < need {
+				p.prefix = append(p.prefix, data...)
+				return
+			}
+			p.prefix = append(p.prefix, data[:need]...)
+			data = data[need:]
+			n := uint32(p.prefix[1])<<24 | uint32(p.prefix[2])<<16 | uint32(p.prefix[3])<<8 | uint32(p.prefix[4])
+			if n != 0 && p.prefix[0]&0x82 != 0 && int64(n) > *worst {
+				*worst = int64(n)
+			}
+			p.expecting = n
+			p.prefix = p.prefix[:0]
+			continue
+		}
+		need := int(p.expecting - uint32(p.actual))
+		if len(data) < need {
+			p.actual += uint64(len(data))
+			return
+		}
+		data = data[need:]
+		p.expecting, p.actual = 0, 0
+	}
 }
 
 type c15BrState struct {
+	worst   int64 // largest end-stream buffer the tracer pre-allocates on this case
 	server  bool
 	streams map[uint32]*c15BrStream
 	maxID   uint32
@@ -65,6 +109,20 @@ func (s *c15BrState) props(f [][2]string) {
 	default:
 		s.tag("props:not-enveloped")
 	}
+}
+
+// c15BrIsStream: propertiesFromHeaders' verdict on the fields of a first response HEADERS
+func c15BrIsStream(f [][2]string) bool {
+	get := func(name string) string {
+		for _, kv := range f {
+			if !strings.HasPrefix(kv[0], ":") && strings.ToLower(kv[0]) == name {
+				return kv[1]
+			}
+		}
+		return ""
+	}
+	ct := strings.ToLower(get("content-type"))
+	return get("content-encoding") == "" && (strings.HasPrefix(ct, "application/connect") || strings.HasPrefix(ct, "application/grpc"))
 }
 
 // complete: `Coll.complete`
@@ -150,6 +208,7 @@ func (s *c15BrState) frame(isReq bool, f *c15Frame) {
 			}
 			st.gotResp = true
 			s.props(f.F)
+			st.resp.isStream = c15BrIsStream(f.F)
 		case isReq:
 			s.tag("headers:request-trailers")
 		case st.name != "":
@@ -174,6 +233,9 @@ func (s *c15BrState) frame(isReq bool, f *c15Frame) {
 			st.earlyData = true
 		default:
 			s.tag("data:response")
+		}
+		if !isReq {
+			st.resp.feed(c15Unhex(f.X), &s.worst)
 		}
 		if len(f.X) == 0 {
 			s.tag("data:empty-payload")
@@ -247,6 +309,25 @@ func (s *c15BrState) lost(what string) {
 
 // c15Branches replays the units of a case in the order the calls complete them.
 func c15Branches(in *c15In, units map[string][]c15Unit) []string {
+	s := c15BrReplay(in, units)
+	out := make([]string, 0, len(s.tags))
+	for t := range s.tags {
+		out = append(out, t)
+	}
+	sort.Strings(out)
+	return out
+}
+
+// c15MaxEndStreamAlloc: the largest buffer the tracer under test would pre-allocate on this input.
+// dataTracer captures the payload of a response-direction end-stream message (flags & 0x82) in a
+// buffer of the DECLARED length, allocated (and zeroed) when the prefix is complete, whatever
+// follows; scrambled / mutated / random inputs now and then declare gigabytes there.
+func c15MaxEndStreamAlloc(in *c15In) int64 {
+	q, p, _ := c15Bytes(in)
+	return c15BrReplay(in, map[string][]c15Unit{"q": c15Units(q, true), "p": c15Units(p, false)}).worst
+}
+
+func c15BrReplay(in *c15In, units map[string][]c15Unit) *c15BrState {
 	s := &c15BrState{server: in.Server, streams: map[uint32]*c15BrStream{}, waiting: map[string]bool{}, tags: map[string]bool{}}
 	type cursor struct {
 		units  []c15Unit
@@ -364,12 +445,7 @@ func c15Branches(in *c15In, units map[string][]c15Unit) []string {
 	if len(s.waiting) > 0 {
 		s.tag("end:traces-still-held")
 	}
-	out := make([]string, 0, len(s.tags))
-	for t := range s.tags {
-		out = append(out, t)
-	}
-	sort.Strings(out)
-	return out
+	return s
 }
 
 // c15UnitFrames counts the frames in a unit (hex): more than one = HEADERS + CONTINUATION…
